@@ -18,10 +18,12 @@ package file
 // the legacy key is a function of the passphrase bytes; the result may share memory with the
 // passphrase (it does when the passphrase is long enough), so nothing is said about freshness
 //@   assumes [legacy-kdf] val(key) == LegacyKey(val(passphrase), keyLen)
+//@   ensures [prefix-or-new] newly(key) || (key.arr == passphrase.arr && key.off == passphrase.off && keyLen <= len(passphrase))
 //@   loop 1 invariant [idx] len(passphrase) <= i && len(key) == keyLen && i >= 0
 
 //@ func deriveKeyArgon2(passphrase, salt, keyLen) (key)
 //@   property C19
+//@   fresh key
 //@   ensures [kdf] val(key) == KDF(val(passphrase), val(salt)) && len(key) == keyLen
 
 //@ func getAddress(pubKey) (addr, err)
